@@ -28,18 +28,20 @@ Definition es_seen c (fr : sframe) : Prop :=
   (sf_kind fr = KHeaders /\ flag_has (sf_flags fr) FL_EH = true /\ flag_has (sf_flags fr) FL_ES = true) \/
   (sf_kind fr = KCont /\ flag_has (sf_flags fr) FL_EH = true /\ cc_hdrEndStream c = true).
 
-(* a status seen: a final one earlier (gotStatus), or a :status field in the header block this frame completes *)
+(* a FINAL status seen: earlier (gotStatus), or the header block this frame completes carries a :status >= 200
+   (an interim 1xx block that ends the stream is malformed) *)
 Definition status_seen c (fr : sframe) (x : cctx) : Prop :=
   ct_gotStatus x = true \/
   ((sf_kind fr = KHeaders \/ sf_kind fr = KCont) /\
-   cc_hdrStatus (rs_conn (cl_read_stream dec_field c fr (Some (ct_resp x)))) <> 0%Z).
+   (200 <= cc_hdrStatus (rs_conn (cl_read_stream dec_field c fr (Some (ct_resp x)))))%Z).
 
 
 Lemma rhf_ended c0 id frag eh res :
   snd (fst (cl_read_header_fragment dec_field c0 id frag eh res)) = true ->
   eh = true /\ cc_hdrEndStream c0 = true /\
   cc_hdrStream (rs_conn (cl_read_header_fragment dec_field c0 id frag eh res)) = 0 /\
-  snd (cl_read_header_fragment dec_field c0 id frag eh res) = CRSNone.
+  snd (cl_read_header_fragment dec_field c0 id frag eh res) = CRSNone /\
+  cc_hdrEndStream (rs_conn (cl_read_header_fragment dec_field c0 id frag eh res)) = true.
 Proof.
   unfold cl_read_header_fragment, rs_conn.
   destruct (cl_hdr_loop dec_field _ eh (cc_dec c0) (cc_hdrFields c0) (cc_hdrRegularSeen c0) (cc_hdrStatus c0) (cc_hdrErr c0) res _)
@@ -48,15 +50,17 @@ Proof.
   cbn. auto.
 Qed.
 
-Lemma chk_nil c1 fr x1 : cc_hdrStream c1 = 0 -> (sf_kind fr = KHeaders \/ sf_kind fr = KCont) ->
+Lemma chk_nil c1 fr x1 : cc_hdrStream c1 = 0 -> cc_hdrEndStream c1 = true -> (sf_kind fr = KHeaders \/ sf_kind fr = KCont) ->
   fst (disp_chk c1 fr (Some x1) CRSNone) <> None ->
   disp_err3 fr (fst (disp_chk c1 fr (Some x1) CRSNone)) (snd (disp_chk c1 fr (Some x1) CRSNone)) = CRSNone ->
-  ct_gotStatus x1 = true \/ cc_hdrStatus c1 <> 0%Z.
+  ct_gotStatus x1 = true \/ (200 <= cc_hdrStatus c1)%Z.
 Proof.
-  intros Z K _ H. unfold disp_chk in H. rewrite Z in H. cbn [N.eqb] in H.
+  intros Z ES K _ H. unfold disp_chk in H. rewrite Z, ES in H. cbn [N.eqb] in H.
   replace (fkind_eqb (sf_kind fr) KHeaders || fkind_eqb (sf_kind fr) KCont) with true in H by (destruct K as [-> | ->]; reflexivity).
-  cbn [andb] in H. destruct (cc_hdrStatus c1 =? 0)%Z eqn:S0; [|right; lia].
-  destruct (ct_gotStatus x1); [left; reflexivity|]. cbn [negb orb fst snd] in H. unfold disp_err3 in H. discriminate.
+  cbn [andb] in H. destruct (ct_gotStatus x1) eqn:GS; [left; reflexivity|]. right.
+  destruct (cc_hdrStatus c1 =? 0)%Z eqn:S0; [cbn [negb orb fst snd] in H; unfold disp_err3 in H; discriminate|].
+  cbv zeta in H. destruct (200 <=? cc_hdrStatus c1)%Z eqn:F; [clear - F; lia|].
+  cbn [negb andb fst snd] in H. unfold disp_err3 in H. discriminate.
 Qed.
 
 Lemma nil_at_facts c fr : st_ok c -> nil_at dec_field c fr ->
@@ -94,12 +98,12 @@ Proof.
     destruct (cl_read_header_fragment dec_field c0 (sf_sid fr) (sf_payload fr) (flag_has (sf_flags fr) FL_EH) (Some (ct_resp x)))
       as [[[c1 res'] ended] err]. cbn [fst snd] in *.
     assert (EN : ended = true) by (destruct (disp_chk c1 fr _ err) as [ok2 err2]; apply H).
-    destruct (RE EN) as (EH & ES & Z1 & ->).
+    destruct (RE EN) as (EH & ES & Z1 & -> & ES1).
     split; [right; left; split; [exact K | split; [exact EH | exact ES]]|].
     set (x1 := match res' with Some r => ctu_resp x r | None => x end).
     assert (OK1 : disp_ok1 (Some x) res' = Some x1) by (unfold disp_ok1, x1; destruct res'; reflexivity).
     rewrite OK1 in H.
-    destruct (chk_nil c1 fr x1 Z1 (or_introl K)) as [GS|HS].
+    destruct (chk_nil c1 fr x1 Z1 ES1 (or_introl K)) as [GS|HS].
     + destruct (disp_chk c1 fr (Some x1) CRSNone) as [ok2 err2]. apply H.
     + destruct (disp_chk c1 fr (Some x1) CRSNone) as [ok2 err2]. apply H.
     + left. unfold x1 in GS. destruct res'; exact GS.
@@ -110,12 +114,12 @@ Proof.
     destruct (cl_read_header_fragment dec_field c (sf_sid fr) (sf_payload fr) (flag_has (sf_flags fr) FL_EH) (Some (ct_resp x)))
       as [[[c1 res'] ended] err]. cbn [fst snd] in *.
     assert (EN : ended = true) by (destruct (disp_chk c1 fr _ err) as [ok2 err2]; apply H).
-    destruct (RE EN) as (EH & ES & Z1 & ->).
+    destruct (RE EN) as (EH & ES & Z1 & -> & ES1).
     split; [right; right; split; [exact K | split; [exact EH | exact ES]]|].
     set (x1 := match res' with Some r => ctu_resp x r | None => x end).
     assert (OK1 : disp_ok1 (Some x) res' = Some x1) by (unfold disp_ok1, x1; destruct res'; reflexivity).
     rewrite OK1 in H.
-    destruct (chk_nil c1 fr x1 Z1 (or_intror K)) as [GS|HS].
+    destruct (chk_nil c1 fr x1 Z1 ES1 (or_intror K)) as [GS|HS].
     + destruct (disp_chk c1 fr (Some x1) CRSNone) as [ok2 err2]. apply H.
     + destruct (disp_chk c1 fr (Some x1) CRSNone) as [ok2 err2]. apply H.
     + left. unfold x1 in GS. destruct res'; exact GS.
